@@ -1122,6 +1122,9 @@ func (ex *Exec) execRange(st *State, s *ast.RangeStmt, label string) flow {
 		}
 		if seen != nil {
 			m["$seen"] = s0.vars[ex.hidden(ord)]
+			if c, ok := s0.vars[ex.hiddenCount(ord)]; ok {
+				m["iter"] = ex.intVal(c.S, types.Typ[types.Int])
+			}
 		}
 		if kind == "slice" || kind == "array" {
 			// the (once-evaluated) range operand, for invariants over an unnamed slice
@@ -1139,6 +1142,7 @@ func (ex *Exec) execRange(st *State, s *ast.RangeStmt, label string) flow {
 		keySort = x.kid("dom").Sh.Idx
 		seen = &Val{Sh: x.kid("dom").Sh, S: "((as const " + domSort + ") false)"}
 		st.vars[hid] = seen
+		st.vars[ex.hiddenCount(ord)] = ex.intVal("0", types.Typ[types.Int])
 	default:
 		// channel or function iterator: arbitrary number of iterations with fresh values
 	}
@@ -1186,12 +1190,18 @@ func (ex *Exec) execRange(st *State, s *ast.RangeStmt, label string) flow {
 			q := ex.eng.smt.fresh("k", keySort)
 			_ = q
 			ex1.assume("(forall ((k " + keySort + ")) (! (=> (select " + cur.kid("dom").S + " k) (select " + sv.S + " k)) :pattern ((select " + sv.S + " k))))")
+			// each key is visited once: when the map's key set is what it was when the loop started, the
+			// number of completed iterations is the number of entries
+			if cv, ok := s0.vars[ex.hiddenCount(ord)]; ok && x.kid("dom") != nil {
+				ex1.assume(implies(eq(cur.kid("dom").S, x.kid("dom").S), eq(cv.S, x.kid("card").S)))
+			}
 			exits = append(exits, ex1)
 			k := ex.eng.smt.fresh("rk", keySort)
 			body.assume("(select " + cur.kid("dom").S + " " + k + ")")
 			body.assume(not("(select " + sv.S + " " + k + ")"))
 			mt := x.T.Underlying().(*types.Map)
 			kv := &Val{Sh: ex.eng.sh.shapeOf(mt.Key()), T: mt.Key(), S: k}
+			kv = ex.loaded(kv) // a key of the map: within its type's range, whether or not the loop names it
 			if keyObj != nil {
 				ex.setVar(body, keyObj, ex.retype(ex.loaded(kv), keyObj.Type()))
 			}
@@ -1239,6 +1249,9 @@ func (ex *Exec) execRange(st *State, s *ast.RangeStmt, label string) flow {
 				sv := c.vars[hid]
 				kv := c.vars[ex.hiddenKey(ord)]
 				c.vars[hid] = &Val{Sh: sv.Sh, S: ex.def("seen", domSort, "(store "+sv.S+" "+kv.S+" true)")}
+				if cv, ok := c.vars[ex.hiddenCount(ord)]; ok {
+					c.vars[ex.hiddenCount(ord)] = ex.intVal("(+ "+cv.S+" 1)", types.Typ[types.Int])
+				}
 			}
 			if ex.discovery == 0 {
 				ex.checkInvs(c, ls, "inv-keep", extraAt(c))
@@ -1252,6 +1265,7 @@ func (ex *Exec) execRange(st *State, s *ast.RangeStmt, label string) flow {
 	ex.loopOrd, ex.selectOrd = savedOrd, savedSel
 	delete(rec.vars, hid)
 	delete(rec.vars, ex.hiddenKey(ord))
+	delete(rec.vars, ex.hiddenCount(ord))
 	if keyObj != nil {
 		delete(rec.vars, keyObj)
 	}
@@ -1276,6 +1290,9 @@ func (ex *Exec) execRange(st *State, s *ast.RangeStmt, label string) flow {
 	case "map":
 		sv := ex.eng.smt.fresh("seen", domSort)
 		head.vars[hid] = &Val{Sh: seen.Sh, S: sv}
+		cnt := ex.eng.smt.fresh("cnt", "Int")
+		head.vars[ex.hiddenCount(ord)] = ex.intVal(cnt, types.Typ[types.Int])
+		head.assume("(<= 0 " + cnt + ")")
 		// seen is a subset of the original domain
 	}
 	ex.assumeInvs(head, ls, extraAt(head))
@@ -1285,6 +1302,7 @@ func (ex *Exec) execRange(st *State, s *ast.RangeStmt, label string) flow {
 	for _, e := range exits {
 		ex.checkExits(e, ls, extraAt(e))
 		delete(e.vars, hid)
+		delete(e.vars, ex.hiddenCount(ord))
 	}
 	out.normal = ex.mergeStates(exits)
 	return out
@@ -1293,6 +1311,17 @@ func (ex *Exec) execRange(st *State, s *ast.RangeStmt, label string) flow {
 // hidden returns the synthetic variable that carries a range loop's iteration state.
 func (ex *Exec) hidden(ord int) types.Object {
 	key := fmt.Sprintf("$iter%d", ord)
+	if o, ok := ex.hiddenVars[key]; ok {
+		return o
+	}
+	o := types.NewVar(token.NoPos, nil, key, types.Typ[types.Int])
+	ex.hiddenVars[key] = o
+	return o
+}
+
+// hiddenCount: the number of completed iterations of a map range loop.
+func (ex *Exec) hiddenCount(ord int) types.Object {
+	key := fmt.Sprintf("$cnt%d", ord)
 	if o, ok := ex.hiddenVars[key]; ok {
 		return o
 	}
